@@ -108,4 +108,12 @@ def run(fixtures):
                 if n["name"] not in ("push", "len", "get", "iter"):
                     fired = True
         expect("append-only:" + name, fired, want)
-    return problems, 28
+    # memo table with a lossy key
+    FP = {p: fl[0] for p, fl in c.fns.items() if "::Memo::" in p}
+    got = {p.split("::")[-1]: bool(bad) for p, f, fld, bad, n_ in c12.memo_findings(FP, {"items"})}
+    for name, want in (("bad_memo", True), ("good_memo", False)):
+        if name not in got:
+            problems.append("memo:%s: the method was not recognised as reading a memo table" % name)
+        else:
+            expect("memo:" + name, got[name], want)
+    return problems, 30
